@@ -33,10 +33,9 @@ SECRETS = (SECRET_I, SECRET_C, SECRET_M)
 # `=` -> __hash__/__eq__; messages -> __str__/__repr__/__format__; conditions -> __bool__; ordering
 # -> __lt__...; sys.getsizeof -> __sizeof__) and the one attribute yaql reads on every value
 ALLOWED_INSTANCE_ATTRS = {"__class__", "__yaqlization__"}
-ALLOWED_CLASS_ATTRS = {"__mro__", "__dict__", "__name__", "__qualname__", "__module__", "__class__",
-                       "__subclasshook__", "__abstractmethods__", "__yaqlization__", "__bases__", "__flags__"}
+ALLOWED_CLASS_ATTRS = {"__mro__", "__dict__", "__name__", "__qualname__", "__module__"}
 ALLOWED_PROTOCOL = {"__eq__", "__ne__", "__hash__", "__str__", "__repr__", "__bool__", "__format__", "__sizeof__",
-                    "__lt__", "__le__", "__gt__", "__ge__",
+                    "__lt__", "__le__", "__gt__", "__ge__", "__iter__", "__len__", "__contains__",
                     # operator / conversion syntax applied by a payload to an untyped argument (random(a, b), int(x)):
                     # dispatched by the interpreter, no member is named
                     "__add__", "__radd__", "__sub__", "__rsub__", "__mul__", "__rmul__", "__mod__", "__rmod__",
@@ -127,6 +126,13 @@ class Canary(object, metaclass=CanaryMeta):
     __index__ = _slot("__index__", lambda s: 7)
 
 
+class IterCanary(Canary):
+    """a host object that is iterable (so yaql treats it as a collection); its items are plain strings"""
+    __iter__ = _slot("__iter__", lambda s: iter(["item"]))
+    __len__ = _slot("__len__", lambda s: 1)
+    __contains__ = _slot("__contains__", lambda s, x: False)
+
+
 class Granted(object):
     """a properly yaqlized host object used as an ordinary argument"""
     def __init__(self):
@@ -154,7 +160,7 @@ def make_values():
         yaqlize_attributes=False, yaqlize_methods=False, yaqlize_indexer=False))
     g = Granted()
     yaqlization.yaqlize(g)
-    vals = {"c": c, "cl": [c], "cd": {"k": c}, "co": off, "ct": (c, c), "ck": {c: 1}, "g": g,
+    vals = {"ci": IterCanary(), "c": c, "cl": [c], "cd": {"k": c}, "co": off, "ct": (c, c), "ck": {c: 1}, "g": g,
             "null": None, "t": True, "i0": 0, "i1": 1, "i2": 2, "im": -1, "f": 1.5, "e": "", "a": "a",
             "l0": [], "l2": [1, 2], "ls": ["secret", "{0.secret}"], "lp": [["secret", 1]], "d0": {}, "ds": {"secret": 1},
             "da": {"a": 1}, "tu": (1, 2), "st": {1, 2}, "dt": datetime.datetime(2020, 1, 2, tzinfo=datetime.timezone.utc),
@@ -167,7 +173,7 @@ def make_values():
 VALUE_ORDER = (["s%d" % i for i in range(len(ATTACK_STRINGS))] +
                ["g", "null", "t", "i1", "i0", "i2", "im", "f", "a", "e", "ls", "lp", "l2", "l0", "ds", "da", "d0", "tu", "st",
                 "dt", "ts", "re", "it"])
-CANARY_KEYS = ["c", "cl", "cd", "co", "ct", "ck"]
+CANARY_KEYS = ["c", "cl", "cd", "co", "ct", "ck", "ci"]
 
 
 def var(name):
@@ -544,6 +550,7 @@ def run_parallel(sw, cases, nproc=14, stall=6.0):
 
 
 def sweep(run, deep, corpus):
+    lexer_gate(run)
     sw = Sweeper()
     thorough = deep or not run.quick
     cases = [c for c in corpus] + sw.plan(thorough)
@@ -585,6 +592,39 @@ def sweep(run, deep, corpus):
     if len(run.cov["uncovered"]) > 40:
         extra = len(run.cov["uncovered"]) - 40
         run.cov["uncovered"] = run.cov["uncovered"][:40] + ["... and %d more" % extra]
+
+
+def lexer_gate(run):
+    """defence in depth named by the property: a keyword token cannot start with '__' and is_keyword agrees"""
+    from yaql.language import utils
+    eng = yaql.YaqlFactory().create()
+    for n in ["__x", "__class__", "__", "__a1", "__init__"]:
+        problems = []
+        if utils.is_keyword(n):
+            problems.append("utils.is_keyword(%r) is true" % n)
+        for text in ("$obj.%s" % n, "$obj[%s]" % n, "f(%s => 1)" % n, n):
+            try:
+                st = eng(text)
+            except yexc.YaqlParsingException:
+                continue
+            except Exception as e:
+                problems.append("%r: %s" % (text, type(e).__name__))
+                continue
+            stack = [st]
+            while stack:
+                x = stack.pop()
+                if isinstance(x, expressions.KeywordConstant) and x.value == n:
+                    problems.append("%r parses to the keyword %r" % (text, n))
+                stack.extend(getattr(x, "args", ()) or ())
+                for attr in ("expression", "source", "destination", "expr"):
+                    if hasattr(x, attr):
+                        stack.append(getattr(x, attr))
+        run.case(("lexer-gate", n), nontrivial=True)
+        run.count("lexer-gate")
+        if problems:
+            run.fail("mismatch", "keyword tokens may start with '__' (lexer.py t_KEYWORD_STRING / utils.KEYWORD_REGEX lost the (?!__) "
+                     "guard): %s" % "; ".join(problems), {"names": n, "problems": problems})
+            return
 
 
 def replay(run, case):
